@@ -150,6 +150,15 @@ SCENARIOS = {
                      {"do": "release", "thread": "A"}, {"do": "join", "thread": "A"}],
              observe=["drain f0"]),
     ],
+    "C15": [
+        dict(name="checkpoint-skips-a-write-overtaken-by-a-later-one", setup=["feed fr c0 bf=resume prefix=cp", "clock t=2097152"],
+             threads={"A": 'set c0 k1 exp=0 raw=0 v={"w":1}'},
+             script=[{"do": "park", "thread": "A", "point": "post.before"}, {"do": "spawn", "thread": "A", "line": 'set c0 k1 exp=0 raw=0 v={"w":1}'},
+                     {"do": "await", "thread": "A", "point": "post.before"}, {"do": "run", "line": 'set c0 k2 exp=0 raw=0 v={"w":2}'},
+                     {"do": "run", "line": "drain fr"}, {"do": "run", "line": "stopfeed fr"},
+                     {"do": "release", "thread": "A"}, {"do": "join", "thread": "A"}],
+             observe=["feed fr c0 bf=resume prefix=cp dump=1", "drain fr"]),
+    ],
     "C09": [
         dict(name="write-between-backfill-and-registration-is-lost", setup=["clock t=2097152", 'set c0 k0 exp=0 raw=0 v={"w":0}', "clock t=3145728"],
              threads={"F": "feed f0 c0 bf=0"},
